@@ -16,6 +16,7 @@
 //         invx;<i>                          Normal(NormalDistribution(x)) = -x, x=(i-4000)/100
 //     grid = A<den> (k/den, k=1..den-1, restricted to [0.0005,0.9995]), L (dyadic log grid) or F (2^-j, 1.5*2^-j, j=42..1021)
 //   c18:  ell;<id>;<lat>;<lon>;<h>   pole;<id>;<sign>;<h>   elltab;<id>
+//         hist;<e1>;<e2>;<switch 0..3>;<op1>;<op2>;<lat deg %.17g>   one object: set(e1), op1, switch to e2, op2 vs a fresh object
 //         g2d;<gon %.17g>;<sign>;<prec>   s2s;<d>;<m>;<s>;<half>;<prec>
 //         dms;<rad %.17g>                 dmslit;<d>;<m>;<s>          ll;<rad %.17g>;<prec>
 //         lit;<fn>;<string, space written as _>
@@ -591,6 +592,79 @@ static void c18_elltab(int id) {
   if (!ok) V("C18|ellipsoid|table-consistency", cs, std::string(name) + " rc=" + std::to_string(rc) + " a=" + str(E.a()) + " b=" + str(E.b()));
 }
 
+// ---------------------------------------------------------------- ellipsoids: history of one object
+// One shared Ellipsoid object is driven through  [set(e1), op1(b), switch to e2, op2(b)]  and the result of op2 is compared bit for
+// bit with the result of op2 on a fresh object that was only ever set to e2 (same setter, same arguments): the answer of an object
+// may depend on its current parameters only.
+//   e1, e2   0 = default constructed (WGS 84), 1..NELL table entries; all ordered pairs incl. e1 = e2
+//   switch   0 set(&E, id) (id 0: set_af1 with the constructor's arguments), 1 set_ab(a, b), 2 set_af(a, f), 3 set_af1(a, 1/f)
+//            with a, b, f read from a table object of e2
+//   op       0 blh2xyz(b, l0, h0)  1 xyz2blh(point of geocentric latitude b; exact pole at +-90)  2 N(b) 3 M(b) 4 W(b) 5 V(b) 6 F(b)
+static const int NHOP = 7, NHSET = 4;
+static const char* HOP[NHOP] = {"blh2xyz", "xyz2blh", "N", "M", "W", "V", "F"};
+static const char* HSET[NHSET] = {"set(id)", "set_ab", "set_af", "set_af1"};
+struct HRes { double v[3]; };
+static void hist_switch(GNU_gama::Ellipsoid& E, int id, int setter) {
+  if (setter == 0) { if (id == 0) E.set_af1(6378137, 298.257223563); else GNU_gama::set(&E, (GNU_gama::gama_ellipsoid)id); return; }
+  GNU_gama::Ellipsoid T; make_ell(id, T);
+  if (setter == 1) E.set_ab(T.a(), T.b()); else if (setter == 2) E.set_af(T.a(), T.f()); else E.set_af1(T.a(), 1 / T.f());
+}
+static HRes hist_op(const GNU_gama::Ellipsoid& E, int op, double latd) {
+  static const double l0 = (double)(15 * PIl / 180), h0 = 1000.0, R0 = 6379000.0;
+  const double b = (double)((LD)latd * PIl / 180);
+  HRes r; r.v[0] = r.v[1] = r.v[2] = 0;
+  switch (op) {
+    case 0: E.blh2xyz(b, l0, h0, r.v[0], r.v[1], r.v[2]); break;
+    case 1: { double x = R0 * std::cos(b) * std::cos(l0), y = R0 * std::cos(b) * std::sin(l0), z = R0 * std::sin(b);
+              if (std::fabs(latd) == 90) { x = y = 0; z = latd > 0 ? R0 : -R0; }
+              E.xyz2blh(x, y, z, r.v[0], r.v[1], r.v[2]); break; }
+    case 2: r.v[0] = E.N(b); break;
+    case 3: r.v[0] = E.M(b); break;
+    case 4: r.v[0] = E.W(b); break;
+    case 5: r.v[0] = E.V(b); break;
+    default: r.v[0] = E.F(b); break;
+  }
+  return r;
+}
+static bool hsame(const HRes& a, const HRes& b) { return std::memcmp(a.v, b.v, sizeof a.v) == 0; }
+static long long g_hist_out[NHOP][2];      // [op2][result on e1 and e2 differ]: sequences whose history result equals the fresh one
+// latitude grid of the histories: the grid of the round trips (1 deg + {+-89.999999}); thorough: 0.25 deg
+static std::vector<double> hist_lat_list() { if (!thorough()) return lat_list(); std::vector<double> v; for (int i = -360; i <= 360; i++) v.push_back(i * 0.25); v.push_back(89.999999); v.push_back(-89.999999); return v; }
+static void c18_hist(int e1, int e2, int setter, int op1, int op2, double latd) {
+  GNU_gama::Ellipsoid E; make_ell(e1, E);
+  HRes first = hist_op(E, op1, latd);
+  hist_switch(E, e2, setter);
+  HRes got = hist_op(E, op2, latd);
+  GNU_gama::Ellipsoid Fr; hist_switch(Fr, e2, setter);
+  HRes ref = hist_op(Fr, op2, latd);
+  bool distinguishing;                                                    // does the answer of op2 on e1 differ from the answer on e2 at all
+  if (op1 == op2) distinguishing = !hsame(first, ref);
+  else { GNU_gama::Ellipsoid F1; make_ell(e1, F1); distinguishing = !hsame(hist_op(F1, op2, latd), ref); }
+  const bool ok = hsame(got, ref);
+  if (ok) g_hist_out[op2][distinguishing ? 1 : 0]++;
+  if (ok && !ctx().verbose) return;
+  std::string cs = "hist;" + std::to_string(e1) + ";" + std::to_string(e2) + ";" + std::to_string(setter) + ";" + std::to_string(op1) + ";" + std::to_string(op2) + ";" + str(latd);
+  auto nm = [](int id) { return std::string(id ? GNU_gama::gama_ellipsoid_id[id] : "default"); };
+  auto rs = [&](const HRes& r) { return op2 <= 1 ? "(" + str(r.v[0]) + ", " + str(r.v[1]) + ", " + str(r.v[2]) + ")" : str(r.v[0]); };
+  std::string text = "one object: " + nm(e1) + ", " + HOP[op1] + "(lat " + str(latd) + "), " + HSET[setter] + " -> " + nm(e2) + ", " + HOP[op2] + "(lat " + str(latd) + ") = " + rs(got) + "; fresh object set once to " + nm(e2) + ": " + rs(ref);
+  if (ctx().verbose) printf("# %s %s\n", cs.c_str(), text.c_str());
+  if (!ok) {
+    O(std::string("ellipsoid-history|") + HOP[op2] + "|differs-from-fresh-object");
+    V(std::string("C18|ellipsoid|history-dependent|") + HOP[op2] + "|after-" + HSET[setter] + (e1 == e2 ? "|same-ellipsoid" : "|other-ellipsoid"), cs, text);
+  }
+}
+static void c18_hist_unit(int e1, int setter) {
+  static const std::vector<double> LAT = hist_lat_list();
+  std::memset(g_hist_out, 0, sizeof g_hist_out);
+  long long n = 0;
+  for (int e2 = 0; e2 <= NELL; e2++) for (int op1 = 0; op1 < NHOP; op1++) for (int op2 = 0; op2 < NHOP; op2++)
+    for (double latd : LAT) { c18_hist(e1, e2, setter, op1, op2, latd); n++; }
+  C("evaluations", n); C("transitions", 6 * n);   // shared object: set(e1), op1, switch, op2; fresh object: switch, op2
+  C("distinct_nontrivial", n);
+  for (int op = 0; op < NHOP; op++) for (int d = 0; d < 2; d++) if (g_hist_out[op][d])
+    O(std::string("ellipsoid-history|") + HOP[op] + "|same-as-fresh-object|" + (d ? "answers-of-e1-and-e2-differ" : "answers-of-e1-and-e2-equal"), g_hist_out[op][d]);
+}
+
 // ---------------------------------------------------------------- angles
 struct Dms { bool ok = false, neg = false; long d = 0; int m = 0; double s = 0; int mdig = 0, sdec = -1; };
 static Dms parse_dms(const std::string& str) {
@@ -819,6 +893,7 @@ static void c18_case(const std::string& cs) {
   if (k == "ell") c18_ell(I(1), I(2), I(3), I(4));
   else if (k == "pole") c18_pole(I(1), I(2), I(3));
   else if (k == "elltab") c18_elltab(I(1));
+  else if (k == "hist") c18_hist(I(1), I(2), I(3), I(4), I(5), strtod(f.at(6).c_str(), nullptr));
   else if (k == "g2d") c18_g2d(strtod(f.at(1).c_str(), nullptr), I(2), I(3));
   else if (k == "s2s") c18_s2s(I(1), I(2), I(3), I(4), I(5));
   else if (k == "ll") c18_ll(strtod(f.at(1).c_str(), nullptr), I(2), "case");
@@ -849,6 +924,19 @@ static int run_c18() {
         E.blh2xyz(b0, l0, h0, x, y, z); E.xyz2blh(x, y, z, b2, l2, h2);
         X("bessel lat=-89.999999 lon=180 h=20000km: xyz=(" + str(x) + "," + str(y) + "," + str(z) + ") -> lat " + str(b2 * 180 / M_PI) + " lon " + str(l2 * 180 / M_PI) + " h " + str(h2) + " (one of " + std::to_string(NLAT * NLON * 6) + " grid points per ellipsoid)");
       }
+    }
+  }
+  // --- ellipsoids: histories [set(e1), op1(b), switch(e2), op2(b)] of one shared object, all ordered pairs (e1, e2) x 4 ways to switch
+  //     x all pairs of operations x the latitude grid (1 deg; thorough 0.25 deg)
+  if (on("hist")) {
+    for (int e1 = 0; e1 <= NELL; e1++) for (int st = 0; st < NHSET; st++) {
+      if (!take(unit++) || expired()) continue;
+      c18_hist_unit(e1, st);
+    }
+    if (mine(0)) {
+      GNU_gama::Ellipsoid E; make_ell(6, E); double b = (double)(50 * PIl / 180); double n1 = E.N(b); GNU_gama::set(&E, GNU_gama::ellipsoid_wgs84); double n2 = E.N(b);
+      GNU_gama::Ellipsoid Fr; double n3 = Fr.N(b);
+      X("one object: bessel N(50 deg) = " + str(n1) + ", set(wgs84), N(50 deg) = " + str(n2) + "; fresh wgs84 object N(50 deg) = " + str(n3));
     }
   }
   // --- angles
